@@ -6,6 +6,7 @@
 #define STUBS_C14_STR_H
 #include "stubs/vstr.h"
 #define C14_NPOS ((size_t)-1)
+extern size_t g_plen;           /* length of the path (so that a counterexample shows it) */
 extern size_t g_ls, g_pk;     /* g_pk: ghost position in the path for "no '/' after g_ls" */
 
 /* s.rfind('/') : "the highest position xpos such that at(xpos) == c; npos if none" */
